@@ -55,6 +55,7 @@ type Op struct {
 	Signal int    `json:"signal,omitempty"`
 	Reason string `json:"reason,omitempty"`
 	Gen    int    `json:"gen,omitempty"` // address the process of this generation (default: latest)
+	Since  string `json:"since,omitempty"` // until: only events recorded after this mark
 }
 
 type Scenario struct {
@@ -79,6 +80,7 @@ type runner struct {
 	mu      sync.Mutex
 	pending map[string]chan struct{}
 	invTags map[string]bool
+	marks   map[string]int
 	ninv    int
 	opWait  time.Duration
 }
@@ -206,8 +208,17 @@ func (r *runner) until(op *Op) error {
 				n = 1
 			}
 			cnt := 0
+			since := 0
+			if op.Since != "" {
+				r.mu.Lock()
+				since = r.marks[op.Since]
+				r.mu.Unlock()
+			}
 			for _, e := range r.s.Rec.Events() {
 				if e["ev"] != op.Ev {
+					continue
+				}
+				if sq, _ := e["seq"].(int); sq <= since {
 					continue
 				}
 				if op.Actor != "" && e["actor"] != op.Actor {
@@ -268,7 +279,7 @@ func Run(sc *Scenario, outDir string) Outcome {
 		return out
 	}
 	defer s.Close()
-	r := &runner{s: s, pending: map[string]chan struct{}{}, invTags: map[string]bool{}, opWait: 20 * time.Second}
+	r := &runner{s: s, pending: map[string]chan struct{}{}, invTags: map[string]bool{}, marks: map[string]int{}, opWait: 20 * time.Second}
 	var wg sync.WaitGroup
 	for i := range sc.Ops {
 		op := &sc.Ops[i]
@@ -340,7 +351,10 @@ func Run(sc *Scenario, outDir string) Outcome {
 				s.Rec.Emit("drv", "NoProc", "who", op.Who)
 			}
 		case "mark":
-			s.Rec.Emit("drv", "Mark", "name", op.Name)
+			sq := s.Rec.Emit("drv", "Mark", "name", op.Name)
+			r.mu.Lock()
+			r.marks[op.Name] = sq
+			r.mu.Unlock()
 		default:
 			s.Rec.Emit("drv", "BadOp", "op", op.Op)
 		}
